@@ -22,7 +22,8 @@ RULE = (
 TOL = 1e-10
 
 
-def close(a, b, what, bucket, sample):
+def close(a, b, what, bucket, sample, tol=None):
+    tol = TOL if tol is None else tol
     try:
         aa = onp.asarray(a, dtype=float)
     except Exception as e:
@@ -31,7 +32,7 @@ def close(a, b, what, bucket, sample):
     if aa.shape != bb.shape:
         return fail("wrong_shape", f"{what}: shape {aa.shape}, expected {bb.shape}", bucket("wrong_shape"), sample=sample)
     scale = max(1.0, float(onp.max(onp.abs(bb), initial=0.0)))
-    if not onp.all(onp.abs(aa - bb) <= TOL * scale):
+    if not onp.all(onp.abs(aa - bb) <= tol * scale):
         return fail("wrong_value", f"{what}: max abs error {float(onp.max(onp.abs(aa - bb))):.3e} (scale {scale:.3g})", bucket("wrong_value"), sample=sample)
     return None
 
@@ -178,6 +179,12 @@ def args_body(c):
     (A, B, U, x0, V, D, E, w0), _ = values.generic(vseed, [sx, sx, sx, sx, sw, sw, sw, sw], -1.0, 1.0)
     p0, scale0 = 1.5, c.choice([1.0, 2.0, -0.5])
     kw_by_name = c.bool()
+    # one case in five: one of the two differentiated arguments is a float32 array (its cotangents are float64: wider than itself)
+    lowp = c.choice(["x", "w"]) if c.chance(1, 5) else None
+    if lowp == "x":
+        x0 = x0.astype(onp.float32)
+    elif lowp == "w":
+        w0 = w0.astype(onp.float32)
 
     def core(x, w, p, scale, ns=anp):
         ax, ew = ns.sum(A * x), ns.sum(E * w)
@@ -212,7 +219,7 @@ def args_body(c):
     which = c.choice(["x", "w"])
     argnum, g1, H1, s1, z0 = (ix, gx, Hxx, sx, x0) if which == "x" else (iw, gw, Hww, sw, w0)
     a = args(x0, w0)
-    sample = {"sx": list(sx), "sw": list(sw), "layout": layout, "op": op, "which": which, "kw": kw, "vseed": vseed}
+    sample = {"sx": list(sx), "sw": list(sw), "layout": layout, "op": op, "which": which, "kw": kw, "vseed": vseed, "float32_arg": lowp}
     bucket = lambda k: f"C16|args|{op}|{k}"
     v = values.direction(vseed, s1, 6)
     n1 = len(s1)
@@ -237,8 +244,14 @@ def args_body(c):
             vjp, val = autograd.make_vjp(fun, argnum)(*a, **kw)
             checks += [(val, y0, "primal"), (vjp(2.0), 2.0 * g1, "vjp")]
         elif op == "make_jvp":
-            val, t = autograd.make_jvp(fun, argnum)(*a, **kw)(v)
-            checks += [(val, y0, "primal"), (t, onp.sum(g1 * v), "jvp")]
+            # one operator object, evaluated again with another extra argument before the first JVP function is used
+            opj = autograd.make_jvp(fun, argnum)
+            j1 = opj(*a, **kw)
+            j2 = opj(*a, scale=3.0 * scale0 + 1.0)
+            val, t = j1(v)
+            val2, t2 = j2(v)
+            r2 = (3.0 * scale0 + 1.0) / scale0
+            checks += [(val, y0, "primal"), (t, onp.sum(g1 * v), "jvp"), (val2, r2 * y0, "primal (second evaluation)"), (t2, r2 * onp.sum(g1 * v), "jvp (second evaluation)")]
         elif op == "elementwise_grad":
             checks.append((autograd.elementwise_grad(fun, argnum)(*a, **kw), g1, "elementwise_grad"))
         elif op == "grad_named":
@@ -282,12 +295,13 @@ def args_body(c):
             raise
         return fail("unexpected_exception", describe_exc(e), bucket("exception"), sample=sample)
     for got, want, what in checks:
-        err = close(got, want, what, bucket, sample)
+        # a derivative with respect to the float32 argument may itself be rounded to float32
+        err = close(got, want, what, bucket, sample, tol=2e-6 if lowp else TOL)
         if err:
             return err
     c.features.update({k: v_ for k, v_ in sample.items() if k != "kw"})
-    return ok(nontrivial=True, key=json.dumps([list(sx), list(sw), layout, op, which, sorted(kw)]),
-              labels=["op=" + op, f"layout={layout}", "which=" + which, "kw" if kw else "nokw"], sample=sample)
+    return ok(nontrivial=True, key=json.dumps([list(sx), list(sw), layout, op, which, sorted(kw), lowp]),
+              labels=["op=" + op, f"layout={layout}", "which=" + which, "kw" if kw else "nokw"] + (["float32_arg"] if lowp else []), sample=sample)
 
 
 PROP = Prop("C16", [
